@@ -192,6 +192,23 @@ class InterruptMon(mon.Monitor):
                     return s_ if c["op"] == "Eq" else set(FLAGS4) - s_
         if c.get("k") == "LetExpr" and self.is_answer(c["init"]):
             return flag_of_pattern(c["pat"]) or set(FLAGS4)
+        if c.get("k") == "Match" and self.is_answer(c["scrut"]):
+            # matches!(flag, X | Y): a match on the answer whose arms are boolean literals
+            def lit(b):
+                while b is not None and b.get("k") in ("Block", "DropTemps", "Paren") and not b.get("stmts"):
+                    b = b.get("tail") if b.get("k") == "Block" and b.get("tail") is not None else b.get("expr") if b.get("k") == "Block" else b.get("e")
+                return (str(b.get("v")).lower() == "true") if (b is not None and b.get("k") == "Lit" and str(b.get("v")).lower() in ("true", "false")) else None
+            out, left = set(), set(FLAGS4)
+            for a in c["arms"]:
+                v = lit(a["body"])
+                if v is None or a.get("guard") is not None:
+                    return None
+                acc = flag_of_pattern(a["pat"])
+                take = left if acc is None else (left & acc)
+                if v:
+                    out |= take
+                left -= take
+            return out
         return None
 
     def step(self, st, ev):
